@@ -32,6 +32,14 @@ CLAIMED = {
             "logged state and compares them with what view and stat objects held across mutations report in "
             "asdict / aslist / asnumpy / aspandas / multi form, at every step of random histories and on every "
             "TLC-enumerated small hypergraph under relabellings and insertion orders."),
+    "C07": ("§4 C07", "MC_Nets (slots holding networks; copy / pickle / own-class constructor / seven edits incl. "
+            "in-place append to nested attribute values) is explored by TLC with Frame and CopyEqual as action "
+            "properties; every behaviour is replayed on real objects of the three classes and TLC validates "
+            "equality of the derived network, framing of every other live network and id freshness after each step."),
+    "C18": ("§4 C18", "freeze is an action of the exhaustive class models and of the random histories (TLC decides "
+            "FrozenImmutable / NotRejected / is_frozen on every step); in addition every public method and in-place "
+            "library function, found by introspection, is probed on an unfrozen twin and on the frozen network and "
+            "on subhypergraph results, and TLC checks that whatever changes the twin is rejected."),
 }
 NOTE = ("Trusted: TLC, the harness projection/adapter (self-tested on every run by corrupting recorded fields), "
         "and the bounded universes listed in the evidence; outside them only random histories.")
